@@ -280,6 +280,8 @@ def binop(I, fr, op, l, r, node):
                     sym = l.sym.scale(r.sym.c)
                 elif l.sym.is_const():
                     sym = r.sym.scale(l.sym.c)
+                else:
+                    sym = opaque_sym("mul", *sorted([l.sym, r.sym], key=repr))
             if l.expo is not None and r.expo is not None:
                 expo = l.expo * r.expo
         else:
@@ -298,11 +300,14 @@ def binop(I, fr, op, l, r, node):
             f0 = l.f0
             if l.expo is not None and r.expo is not None and r.expo.inverse() is not None:
                 expo = l.expo * r.expo.inverse()
+            if l.sym is not None and r.sym is not None:
+                sym = (l.sym.exact_div(r.sym.c) if r.sym.is_const() else None) or opaque_sym("div", l.sym, r.sym)
         else:
             alg = {at: alg_nonlinear(c) if c[0] not in ("const", "zero") and not (hom_form(c) and hom_form(c)[0] == Exp(0)) else c
                    for at, c in alg.items()}
-            if l.dtype == "int" and r.dtype == "int":
-                sym = LinExpr(fresh_atom("$q"))
+            if l.sym is not None and r.sym is not None:
+                sym = (l.sym.exact_div(r.sym.c) if r.sym.is_const() else None) or \
+                    opaque_sym("int", opaque_sym("div", l.sym, r.sym))
     elif isinstance(op, ast.Mod):
         alg = {}
         for at in l.atoms() | r.atoms():
@@ -348,8 +353,8 @@ def binop(I, fr, op, l, r, node):
         f0 = l.f0 and r.sign == S_POS
         if dtype in ("int", "bool") and not (ie is not None and ie >= 0):
             dtype = "real"
-        if l.dtype == "int" and ie is not None and ie >= 0 and l.sym is not None and l.sym.is_const():
-            pass
+        if l.sym is not None and r.sym is not None:
+            sym = opaque_sym("pow", l.sym, r.sym)
     elif isinstance(op, (ast.BitAnd, ast.BitOr, ast.BitXor)):
         from .interp import alg_lub_pc
         alg = alg2(l, r, alg_lub_pc)
@@ -384,9 +389,8 @@ def binop(I, fr, op, l, r, node):
             sign = S_NONNEG
         elif l.ext[0] == "lo" and r.ext[0] == "hi":
             sign = S_NONPOS
-    if sym is not None and dtype not in ("int", "bool"):
-        if not (l.dtype in ("int", "bool") and r.dtype in ("int", "bool")):
-            sym = None
+    if sym is not None and kind != K_SCALAR:
+        sym = None
     return AV(kind=kind, dtype=dtype, origin=origin, shape=shape, sym=sym, alg=alg, sign=sign, mono=mono,
               const=c, expo=expo, tags=tags_of(l, r), indef=indef_of(l, r), f0=f0, ext=ext)
 
@@ -844,6 +848,8 @@ def call_builtin(I, fr, name, args, kwargs, node):
             return v.replace(alg=alg1(v, alg_nonlinear), const=_NOCONST, sym=None, expo=None,
                              tags=v.tags | frozenset(["round:nearest"]))
         sym = v.sym if (v.sym is not None and v.dtype in ("int", "bool")) else None
+        if sym is None and v.sym is not None:
+            sym = opaque_sym("int", v.sym) if name == "int" else opaque_sym("round", v.sym)
         if c is not _NOCONST:
             sym = LinExpr(c)
         if sym is None:
@@ -1495,6 +1501,8 @@ def _nonlin(sign_f=None, mono_inc=False, dtype=None, tag=None):
         sign = sign_f(v) if sign_f else S_ANY
         out = elemwise(C, v, alg_nonlinear, sign=sign, dtype=dtype or ("real" if v.dtype in ("int", "bool") else v.dtype),
                        mono=v.mono if mono_inc else frozenset(), tag=tag)
+        if v.shape == () and v.sym is not None:
+            out = out.replace(sym=opaque_sym(C.name.split(".")[-1], v.sym))
         return out
     return h
 
@@ -1529,7 +1537,7 @@ def _rounder(direction):
             f = {"ceil": math.ceil, "floor": math.floor, "nearest": round, "toward-zero": math.trunc}[direction]
             out = out.replace(const=float(f(c)), sym=LinExpr(int(f(c))), expo=Exp(int(f(c))), sign=sign_of_number(f(c)))
         elif v.shape == ():
-            out = out.replace(sym=LinExpr(fresh_atom("$c")))
+            out = out.replace(sym=opaque_sym(direction, v.sym) if v.sym is not None else LinExpr(fresh_atom("$c")))
         return out
     return h
 
